@@ -67,6 +67,7 @@ def pools(seed, tier):
             selfies.append(s)
     smiles = ["c1ccccc1", "C(=O)O", "[C@@H](F)(Cl)Br", "C1CC1", "F/C=C/F", "[nH]1cccc1", "O=S(=O)(O)O", "C[N+](C)(C)C", "[Fe+3]", "C#N.[Na+]",
               # accepted under some pool tables only: the strict outcome must follow the table in force
+              "c1ccsec1", "O=C(O)c1ccsec1", "c1cc[se]c1", "c1cctec1", "c1ccasc1", "c1ccsic1", "Clc1ccccc1Br", "[Si](C)(C)Cl", "CSc1ccccc1",
               "CN(C)(C)(C)C", "O=Cl(=O)(=O)O", "FS(F)(F)(F)(F)F", "c1ccn(=O)cc1", "C[Xe-2](F)(F)(F)F", "O=P(O)(O)O"]
     corpus = G.corpus_smiles()
     while len(smiles) < 60:
@@ -99,6 +100,12 @@ def pools(seed, tier):
                 d.update(_fresh(dict(table=t, decode=[x]), hs + 100 * k + j)["dec"])
             fresh_dec.append(d)
     fresh_enc = _fresh(dict(table=None, encode=smiles), hs + 77)["enc"]
+    # interpreters with other hash seeds must agree among themselves (iteration order of sets / dicts of strings)
+    for extra in (1, 2, 3):
+        other = _fresh(dict(table=None, encode=smiles), hs + 77 + 1000003 * extra)["enc"]
+        for s_ in smiles:
+            if other[s_] != fresh_enc[s_]:
+                fresh_enc[s_] = ["interpreters_disagree", fresh_enc[s_], other[s_]]
     p = dict(tables=tables, selfies=selfies, smiles=smiles, fresh_dec=fresh_dec, fresh_enc=fresh_enc, fresh_compat=fresh_compat, fresh_strict=fresh_strict)
     _POOL[key] = p
     return p
@@ -286,6 +293,8 @@ def apply_step(state, step, info):
         else:
             got = ["ok", r[1]] if r[0] == "ok" else ["err"]
         want = pool["fresh_enc"][s]
+        if want[0] == "interpreters_disagree":
+            return Fail("encode:fresh_interpreters_with_different_hash_seeds_disagree", smiles=s[:300], one=want[1], other=want[2])
         info["nontrivial"] = info["nontrivial"] or (state.changed and state.disturbed and state.filled)
         cl.add("checked_encode")
         if strict:
